@@ -2,6 +2,7 @@ package checks
 
 import (
 	"fmt"
+	"math"
 	"strings"
 
 	at "github.com/DanielSvub/anytype"
@@ -295,6 +296,28 @@ func init() {
 		}
 		return ""
 	})
+	customSizes["indents far outside 0..10"] = []int{2}
+	sweepCases["C16"] = append(sweepCases["C16"], sweepCase{"indents far outside 0..10", func(_, variant int) string {
+		// every indent outside 0..10 panics - also those that alias a valid one in a narrower integer type
+		bad := []int{11, 12, 13, 100, 127, 128, 245, 246, 255, 256, 257, 260, 266, 267, 511, 512, 522, 523, 1024, 32767, 32768, 65535, 65536, 65546,
+			-1, -2, -10, -11, -245, -246, -250, -255, -256, -257, -512, -65536, -65535, math.MaxInt, math.MinInt, math.MaxInt32, math.MinInt32, math.MaxInt32 + 1}
+		var target interface{ FormatString(int) string } = at.NewList(1, at.NewObject("k", "v"))
+		if variant == 1 {
+			target = at.NewObject("k", at.NewList(1, "v"))
+		}
+		for _, ind := range bad {
+			var out string
+			if pn, _ := try(func() { out = target.FormatString(ind) }); !pn {
+				return fmt.Sprintf("FormatString(%d) did not panic (returned %d bytes)", ind, len(out))
+			}
+		}
+		for ind := 0; ind <= 10; ind++ {
+			if pn, pv := try(func() { target.FormatString(ind) }); pn {
+				return fmt.Sprintf("FormatString(%d) panicked: %v", ind, pv)
+			}
+		}
+		return ""
+	}})
 	reg("C20", "error line at the bottom of a deeply nested document", func(d, v int) string {
 		_, text, _ := deepChain(d, v, 1, "1")
 		// one line per opener; the innermost value is followed by an unexpected character on its own line
